@@ -69,9 +69,15 @@ def rowName : AcctRow K P → Nat
 
 def nameTaken (sd : ScopeDisk K P) (name : Nat) : Bool := sd.accts.any fun e => rowName e.2 == name
 
-def idxRows (sc : Scope) (a name : Nat) : List Row :=
-  [ { path := scPath sc "acctididx", key := .plain (toString a), val := .plain (toString name) },
-    { path := scPath sc "acctnameidx", key := .plain (toString name), val := .plain (toString a) } ]
+-- Only rows that carry key material, hashes of address ids or the watching-only flag are part of the modelled
+-- write stream; name / id indices, `lastaccount`, sync and version rows are plain bookkeeping (the Go harness
+-- scans them for secrets all the same).
+
+/-- `fetchLastAccount` + 1: a scope without a `lastaccount` row hands out account 0 (again) -/
+def nextAcct (sd : ScopeDisk K P) : Nat :=
+  match sd.lastAcct with
+  | some l => l + 1
+  | none => 0
 
 /-- `NewAccount` / `newAccount`.  Names: 0 is the reserved/empty name, 1 is "default" -/
 def opNewAccount (hd : HD K P) (s : State K P) (sc : Scope) (name : Nat) : State K P × Res K × List Row :=
@@ -80,7 +86,7 @@ def opNewAccount (hd : HD K P) (s : State K P) (sc : Scope) (name : Nat) : State
   | none => (s, .err .scopeNotFound, [])
   | some sd =>
     if s.mem.locked then (s, .err .locked, []) else
-    let acct := sd.lastAcct + 1
+    let acct := nextAcct sd
     if name = 0 then (s, .err .invalidAcct, []) else
     if nameTaken sd name then (s, .err .dupAcct, []) else
     match sd.coinPriv with
@@ -91,10 +97,9 @@ def opNewAccount (hd : HD K P) (s : State K P) (sc : Scope) (name : Nat) : State
       | none => (s, .err .keyChain, [])
       | some ak =>
         let row : AcctRow K P := .dflt (hd.neuter ak) (some ak) 0 0 name
-        let sd' := { sd with accts := aset sd.accts acct row, lastAcct := acct }
+        let sd' := { sd with accts := aset sd.accts acct row, lastAcct := some acct }
         (putSD s sc sd', .acct acct,
-          [acctRowPut sc acct row] ++ idxRows sc acct name ++
-          [{ path := scPath sc "meta", key := .plain "lastaccount", val := .plain (toString acct) }])
+          [acctRowPut sc acct row])
 
 /-- `NewAccountWatchingOnly` / `newAccountWatchingOnly` -/
 def opNewAccountWO (s : State K P) (sc : Scope) (name : Nat) (xpub : P) (ci fp : Nat) (schema : Option Schema) :
@@ -102,15 +107,14 @@ def opNewAccountWO (s : State K P) (sc : Scope) (name : Nat) (xpub : P) (ci fp :
   match getSD s sc with
   | none => (s, .err .scopeNotFound, [])
   | some sd =>
-    let acct := sd.lastAcct + 1
+    let acct := nextAcct sd
     if name = 0 then (s, .err .invalidAcct, []) else
     if nameTaken sd name then (s, .err .dupAcct, []) else
     let row : AcctRow K P := .wo xpub fp 0 0 name schema ci
-    let sd' := { sd with accts := aset sd.accts acct row, lastAcct := acct }
+    let sd' := { sd with accts := aset sd.accts acct row, lastAcct := some acct }
     let s1 := putSD s sc sd'
     ({ s1 with imports := (sc, acct, xpub) :: s1.imports }, .acct acct,
-      [acctRowPut sc acct row] ++ idxRows sc acct name ++
-      [{ path := scPath sc "meta", key := .plain "lastaccount", val := .plain (toString acct) }])
+      [acctRowPut sc acct row])
 
 /-- `createManagerKeyScope`: cointype key, account 0, branch check -/
 def mkKeyScope (hd : HD K P) (root : K) (sc : Scope) (schema : Schema) : Option (ScopeDisk K P) :=
@@ -122,7 +126,7 @@ def mkKeyScope (hd : HD K P) (root : K) (sc : Scope) (schema : Schema) : Option 
     | some ak =>
       if (hd.child ak 0).isNone || (hd.child ak 1).isNone then none else
       some { schema := schema, coinPriv := some ck, accts := [(0, .dflt (hd.neuter ak) (some ak) 0 0 1)],
-             addrs := [], used := [], lastAcct := 0 }
+             addrs := [], used := [], lastAcct := none }
 
 def acct0Row (sd : ScopeDisk K P) : List (AcctRow K P) := (sd.accts.filter (·.1 == 0)).map (·.2)
 
@@ -152,7 +156,7 @@ def mkScopes (hd : HD K P) (root : K) : List (Scope × Schema) → Option (List 
   | [] => some []
   | (sc, sch) :: t =>
     match mkKeyScope hd root sc sch, mkScopes hd root t with
-    | some sd, some r => some ((sc, sd) :: r)
+    | some sd, some r => some ((sc, { sd with lastAcct := some 0 }) :: r)   -- `createManagerNS` writes lastaccount = 0
     | _, _ => none
 
 /-- memory of a freshly opened manager (`loadManager`): locked, empty caches -/
@@ -399,7 +403,7 @@ def step (cfg : Cfg) (hd : HD K P) (s : State K P) (op : Op K P) : State K P × 
     | .next sc a n int hb => opNext hd s sc a n int hb
     | .extend sc a l int => opExtend cfg hd s sc a l int
     | .lookup sc id h => opLookup hd s sc id h
-    | .markUsed sc id => opMarkUsed s sc id
+    | .markUsed sc id d => opMarkUsed s sc id d
     | .derive sc a ac b i h => opDerive hd s sc a ac b i h
     | .importPriv sc k c h => opImportPriv s sc k c h
     | .importPub sc k h => opImportPub s sc k h
